@@ -880,11 +880,13 @@ theorem lookup_eq_spec_full_fails : ¬ lookup_eq_spec_full := by
 def addSpec : Val := .doc [("r", .doc [("$add", .arr [.str "$a", .int 1])]), ("a", .str "$k"),
   ("z", .str "$zz")]
 
-/-- **addFields_eq_spec (partial).** For a stage whose entries are distinct top-level names
-    (a dotted name writes through a shared sub-document: finding `addfieldsorder`) with
-    expressions in the C04 domain, output `i` is input `i` with each name set, in order, to the
-    value the oracle gives its expression ON THE INPUT DOCUMENT — an entry never sees what another
-    entry of the same stage wrote — and left alone when that value is missing. -/
+/-- **addFields_eq_spec (partial).** For a stage whose entries are field names — dotted ones
+    included — none of which is a prefix of another, with expressions in the C04 domain, output
+    `i` is input `i` with each name set, in order, to the value the oracle gives its expression
+    ON THE INPUT DOCUMENT — an entry never sees what another entry of the same stage wrote, also
+    after a dotted name was written into a sub-document — and left alone when that value is
+    missing.  A dotted name creates the sub-documents it goes through (`Spec.Pipe.setNested`);
+    the oracle is silent where an array stands on its way.  (`_partial`: the C04 domain.) -/
 theorem addFields_eq_spec_partial (opts : Val) (docs s : List Val)
     (hD : addFieldsReasons opts docs = []) (hs : specAddFieldsStage opts docs = some s) :
     Pipe.addFieldsStage opts docs = .ok s :=
@@ -894,6 +896,31 @@ theorem addFields_eq_spec_partial (opts : Val) (docs s : List Val)
 example : addFieldsReasons addSpec [d0, d2] = [] ∧ optDocsAre (specAddFieldsStage addSpec [d0, d2])
     [.doc [("_id", .int 0), ("k", .int 1), ("a", .int 1), ("l", .arr [.int 1, .int 2]), ("r", .int 6)],
      .doc [("_id", .int 2), ("k", .int 1), ("a", .int 1), ("r", .int 3)]] = true := by decide +kernel
+
+/-- the former witness of `addfieldsorder`: `d.n` is written, `r` still reads the input's `d.n`;
+    `n.m` creates its parent, `a.z` puts a sub-document in the place of the number `a` -/
+example : addFieldsReasons (.doc [("d.n", .int 5), ("r", .str "$d.n"), ("n.m", .str "$_id"),
+      ("a.z", .int 1)]) [.doc [("_id", .int 0), ("d", .doc [("n", .int 1)]), ("a", .int 3)]] = [] ∧
+    optDocsAre (specAddFieldsStage (.doc [("d.n", .int 5), ("r", .str "$d.n"), ("n.m", .str "$_id"),
+      ("a.z", .int 1)]) [.doc [("_id", .int 0), ("d", .doc [("n", .int 1)]), ("a", .int 3)]])
+    [.doc [("_id", .int 0), ("d", .doc [("n", .int 5)]), ("a", .doc [("z", .int 1)]), ("r", .int 1),
+      ("n", .doc [("m", .int 0)])]] = true := by decide +kernel
+
+/-- every entry reads the input document: running the entries of a stage one after the other as
+    separate stages is in general something else — the oracle's fold never looks at `acc` to
+    evaluate an expression -/
+theorem addFields_reads_input (d : Val) (name : String) (e : Val) (rest acc : Fields) :
+    specSetFields d ((name, e) :: rest) acc =
+      (match exprValue e d with
+       | some (some v) =>
+         if arrayOnPath (splitDots name) acc then none
+         else specSetFields d rest (setNested (splitDots name) v acc)
+       | some none => specSetFields d rest acc
+       | none => none) := by
+  simp only [specSetFields]
+  cases exprValue e d with
+  | none => rfl
+  | some r => cases r <;> rfl
 
 /-- **replaceRoot_eq_spec (partial).** `{$replaceRoot: {newRoot: e}}` with `e` in the C04 domain
     answers, for each document, the document `e` evaluates to (the oracle is silent when `e` is
